@@ -275,7 +275,31 @@ func jsonvecMain(args []string) int {
 		go func(w, lo, hi int) {
 			defer wg.Done()
 			rng := rand.New(rand.NewSource(*seed*1000 + int64(w)))
-			reuse := map[int][]byte{} // one caller-owned buffer per length, refilled with vector after vector
+			privWhole := make([]bool, hi-lo) // verdict on a private copy, for the reused-buffer pass below
+			defer func() {
+				// second pass: vector after vector in ONE caller-owned buffer per length, nothing else in between
+				reuse := map[int][]byte{}
+				for k := lo; k < hi; k++ {
+					v := &vecs[k]
+					n := len(v.raw)
+					if n == 0 {
+						continue
+					}
+					buf, ok := reuse[n]
+					if !ok {
+						buf = make([]byte, n)
+						reuse[n] = buf
+					}
+					copy(buf, v.raw)
+					if r0 := nodes.det[v.q](buf, 0); r0 != privWhole[k-lo] {
+						prop := map[bool]string{true: "C08", false: "C09"}[privWhole[k-lo]]
+						if v.q != "json" {
+							prop = "C10"
+						}
+						rep.violate(mkViolation(prop, "verdict-differs-in-a-reused-buffer", v.raw, 0, fmt.Sprintf("query=%s: private copy %v, reused buffer %v", v.q, privWhole[k-lo], r0)))
+					}
+				}
+			}()
 			for k := lo; k < hi; k++ {
 				v := &vecs[k]
 				inputs := [][]byte{v.raw}
@@ -316,21 +340,8 @@ func jsonvecMain(args []string) int {
 					if n > 0 {
 						trunc = det(raw, uint32(n))
 					}
-					if vi == 0 && n > 0 {
-						// the same bytes in a buffer that held another vector of this length a moment ago
-						buf, ok := reuse[n]
-						if !ok {
-							buf = make([]byte, n)
-							reuse[n] = buf
-						}
-						copy(buf, raw)
-						if r0 := det(buf, 0); r0 != whole0 {
-							prop := map[bool]string{true: "C08", false: "C09"}[whole0]
-							if v.q != "json" {
-								prop = "C10"
-							}
-							rep.violate(mkViolation(prop, "verdict-differs-in-a-reused-buffer", raw, 0, fmt.Sprintf("query=%s: private copy %v, reused buffer %v", v.q, whole0, r0)))
-						}
+					if vi == 0 {
+						privWhole[k-lo] = whole0
 					}
 					if whole0 != whole1 {
 						rep.violate(mkViolation("C08", "whole-mode-differs-limit0-vs-len+1", raw, int64(n+1), fmt.Sprintf("query=%s limit0=%v limit=len+1=%v", v.q, whole0, whole1)))
@@ -417,6 +428,33 @@ func jsonvecMain(args []string) int {
 					wg2.Add(1)
 					go func(lo, hi int) {
 						defer wg2.Done()
+						first := map[int]string{} // class on a private copy, for the reused-buffer pass below
+						defer func() {
+							if md.limit != 0 || md.useTail || L == 0 {
+								return
+							}
+							// second pass: the vectors of this length follow each other in ONE caller-owned buffer
+							buf := make([]byte, L)
+							for _, k := range idx[lo:hi] {
+								c1, ok := first[k]
+								if !ok {
+									continue
+								}
+								copy(buf, vecs[k].raw)
+								c2, ex := nodes.classOf(mimetype.Detect(buf))
+								atomic.AddInt64(&detections, 1)
+								if ex || c1 == c2 {
+									continue
+								}
+								prop := "C10"
+								if c2 == "" {
+									prop = "C08"
+								} else if c1 == "" {
+									prop = "C09"
+								}
+								rep.violate(mkViolation(prop, "detect-class-differs-in-a-reused-buffer", vecs[k].raw, 0, fmt.Sprintf("class %q on a private copy, %q in a buffer that held another document of the same length a moment ago", c1, c2)))
+							}
+						}()
 						for _, k := range idx[lo:hi] {
 							v := &vecs[k]
 							if v.q != "json" {
@@ -441,6 +479,9 @@ func jsonvecMain(args []string) int {
 							if ex {
 								atomic.AddInt64(&exempt, 1)
 								continue
+							}
+							if md.limit == 0 && !md.useTail && k%3 != 0 {
+								first[k] = cls
 							}
 							inFam := cls != ""
 							lim := int64(md.limit)
